@@ -26,6 +26,7 @@
  */
 
 #include "StringDictionary.h"
+#include "StringDictionaryHASHRPDACBlocks.h"
 
 StringDictionary *StringDictionary::load(std::istream &fp, uint opt) {
   size_t r = loadValue<uint32_t>(fp);
@@ -40,6 +41,8 @@ StringDictionary *StringDictionary::load(std::istream &fp, uint opt) {
     return StringDictionaryHASHRPF::load(fp, opt);
   case HASHRPDAC:
     return StringDictionaryHASHRPDAC::load(fp);
+  case HASHRPDACBlocks:
+    return StringDictionaryHASHRPDACBlocks::load(fp, opt);
 
   case PFC:
     return StringDictionaryPFC::load(fp);
